@@ -1,1 +1,13 @@
+import SpoxModel.Model.Singleton
 /-! Property theorems for C05 (only property-level statements and non-vacuity examples live here). -/
+namespace C05
+open Sing
+
+/-- `untyped_input_no_check`: when some present input has no type the judgement is not consulted
+    and every output Var stays untyped. -/
+theorem untyped_input_no_check (c : Call) (hk : kindsOk c.sig.inputs c.args = true)
+    (hu : anyUntyped c = true) (Infer : InferFn) :
+    construct Infer c = .ok (c.outKeys.map (fun k => (k, none))) := by
+  simp [construct, hk, hu]
+
+end C05
